@@ -5,3 +5,7 @@ import QV.Spec.QtColor
 import QV.Gen.ColorTable
 import QV.Proofs.Color
 import QV.Props.C19
+import QV.Model.Layout
+import QV.Spec.Layout
+import QV.Proofs.Layout
+import QV.Props.C12
